@@ -26,5 +26,17 @@ namespace mfuse
         std::chrono::time_point<std::chrono::steady_clock> lastClockTime;
         uinttime_t deltaTime;
         uinttime_t scaledTime;
+#ifdef MORFUSE_VERIF
+        uinttime_t verifStart;
+        uinttime_t verifLast;
+#endif
     };
+
+#ifdef MORFUSE_VERIF
+    namespace verif
+    {
+        /** When non-null, every TimeManager reads this millisecond clock instead of steady_clock. */
+        extern uinttime_t (*now_ms)();
+    }
+#endif
 }
